@@ -9,11 +9,13 @@ PATHS = ['./p', '../up/p.whl', '/abs/p', '/abs/dir/', 'rel/p', 'rel\\p', '.hidde
 NAMES = ['foo', 'requests-2.26.0', 'Foo_Bar', 'a', 'x.y', 'pkg-1.0-py3-none-any']
 EXTS = ['.whl', '.tbz', '.txz', '.tlz', '.zip', '.tgz', '.tar', '.tar.bz2', '.tar.xz', '.tar.lz', '.tar.lzma', '.tar.gz']
 NON_EXTS = ['.gz', '.txt', '.tar.txt', '.whl.txt', '', '.egg', '.bz2']
-SUFFIXES = ['', '[a]', '[a,b]', ' ; os_name == "a"', "[a] ; python_version >= '3.8'", ' ;os_name=="a"', '[ a , B_c ]', " ; extra == 'x' and os_name != 'b'"]
+SUFFIXES = ['', '[a]', '[a,b]', ' ; os_name == "a"', "[a] ; python_version >= '3.8'", ' ;os_name=="a"', '[ a , B_c ]', " ; extra == 'x' and os_name != 'b'",
+            '  ; os_name == "a"', "[a,b]  ; python_version >= '3.8'", ' \t; os_name == "a"', "[a]\t \t;os_name=='a'", '  ', '[a] \t']
 
 
 def run(ctx):
     ctx.proofs('Props/C19.v')
+    ctx.table_proofs('C19Tables.v')
     build.extract_and_driver()
     quick = ctx.tier == 'quick'
     ctx.extra['rule'] = ('inputs = {%d schemes x %d URL tails} + %d paths + {%d names x %d pip archive extensions} (and, as negative controls, %d non-archive extensions), each x %d suffixes (nothing, extras, '
